@@ -773,7 +773,8 @@ def check(c):
                 if lst[3].get(nm) != before.get(nm):
                     c.violation('ans-changed-on-failure', dict(rep, kind='impl-vs-spec', name=nm, before=repr(before.get(nm)), after=repr(lst[3].get(nm))))
             # the statements before the failing one took effect, the later ones did not
-            want = seps[j - 1][3] if j > 0 else before
+            # (the failing statement's own completed assignments stay too: no rollback)
+            want = seps[j][3]
             got = {k: v for k, v in lst[3].items() if k not in ('_', 'ans')}
             if got != {k: v for k, v in want.items() if k not in ('_', 'ans')}:
                 c.violation('statement-list-state-after-failure', dict(rep, kind='impl-vs-spec', got=repr(got), want=repr(want)))
